@@ -1126,8 +1126,13 @@ fn process_fn(
     }
     // inserts
     let mut ins: Vec<InsertSpec> = vec![];
+    let drop_inserts: Vec<u64> = spec.get("drop_inserts").and_then(|v| v.as_array()).map(|a| a.iter().filter_map(|x| x.as_u64()).collect()).unwrap_or_default();
+    let soft_inserts = spec.get("soft_inserts").and_then(|v| v.as_bool()).unwrap_or(false);
+    let mut ins_index: Vec<u64> = vec![];
     if let Some(Value::Array(a)) = spec.get("inserts") {
-        for v in a {
+        for (vi, v) in a.iter().enumerate() {
+            if drop_inserts.contains(&(vi as u64)) { continue; }
+            ins_index.push(vi as u64);
             ins.push(InsertSpec {
                 at: get_str(v, "at").unwrap_or_default(),
                 mtch: get_str(v, "match").unwrap_or_default(),
@@ -1173,7 +1178,16 @@ fn process_fn(
         }
     }
     for sp in &ins {
-        if !sp.used { errors.push(format!("{}: lost anchor: insert at={} match={:?} nth={} loop={:?}", path, sp.at, sp.mtch, sp.nth, sp.loop_ord)); }
+        if !sp.used {
+            let statement_level = matches!(sp.at.as_str(), "before" | "after" | "arm_start" | "arm_end");
+            if soft_inserts && statement_level { /* reported through lost_inserts below */ }
+            else { errors.push(format!("{}: lost anchor: insert at={} match={:?} nth={} loop={:?}", path, sp.at, sp.mtch, sp.nth, sp.loop_ord)); }
+        }
+    }
+    for (k, sp) in ins.iter().enumerate() {
+        if !sp.used && soft_inserts && matches!(sp.at.as_str(), "before" | "after" | "arm_start" | "arm_end") {
+            rules.hit(&format!("LOST_INSERT:{}", ins_index[k]));
+        }
     }
     // loops
     {
